@@ -181,7 +181,8 @@ def psykal_items(tier):
     base = os.path.join(core.REPO, "src", "psyclone", "tests", "test_files")
     out = []
     for api, rel in (("gocean1.0", "gocean1p0/single_invoke_three_kernels.f90"),
-                     ("dynamo0.3", "dynamo0p3/4_multikernel_invokes.f90")):
+                     ("dynamo0.3", "dynamo0p3/4_multikernel_invokes.f90"),
+                     ("gocean1.0", "gocean1p0/single_invoke_two_identical_kernels.f90")):
         for tname in ("Extract", "Profile"):
             for mode in ("none", "separate", "shared", "shared-named", "separate-named"):
                 out.append((api, os.path.join(base, rel), tname, mode))
